@@ -3,7 +3,7 @@ The allocation ledger (link-time --wrap of ddp_reallocate) of generated programs
 HeapTrace.tla (exactly-once release, true sizes, only live blocks); the same programs run against the ASan-built
 runtime/stdlib: any sanitizer report is an event the specification has no action for."""
 import json, os, re
-import vlib, ddp, semrun, semgen
+import vlib, ddp, semrun, semgen, corpus
 from vlib import Check, Infra, validate_monitor
 
 T_CFG = """SPECIFICATION Spec
@@ -106,6 +106,8 @@ def run(tier):
         ev = recs[i]
         what = {"h": "allocator call outside the protocol (double free, foreign pointer or wrong size)", "end": "blocks still live at normal termination (leak)", "asan": "sanitizer report"}[ev["e"]]
         ck.fail("C05:%s:%s:%s" % (mode, keys[0], cfg), "%s in program with cases %s (%s): %s" % (what, keys, cfg, json.dumps(ev)[:700]), dict(cases=keys, cfg=cfg, mode=mode, event=ev, source=srcs[bi]))
+    ck.cov["corpus"] = corpus.check_heap(ck, (0, 2) if tier == "quick" else (0, 1, 2), subset=("kddp" if tier == "quick" else "all"))
+    ck.cov["traces_validated_against_impl"] += ck.cov["corpus"]["ledgers_validated"]
     ck.sample(dict(program=batches[0][0].key, ledger_head=[r for r in recs[:8]]))
     ck.cov["rule"] = "ownership-role x exit-path programs + copy matrix + statement skeletons + text histories + structural operator cases, each specified case distinct; ledger at the tier's -O levels, ASan on every (thorough) / every second (quick) program"
     ck.assumptions += ["loads/stores of generated code that go through neither libc nor the runtime are invisible to ASan (the object is not instrumented)"]
